@@ -1310,7 +1310,10 @@ pub struct ArchiveFailSafeReader<'a, R: 'a + Read> {
 }
 
 // Size of the repaired file blocks
+#[cfg(not(feature = "mla_verif"))]
 const CACHE_SIZE: usize = 8 * 1024 * 1024; // 8MB
+#[cfg(feature = "mla_verif")]
+const CACHE_SIZE: usize = 8;
 
 /// Used to update the error state only if it was `NoError`
 /// ```text
